@@ -99,7 +99,8 @@ Definition dec_event (k a b : N) : event :=
   | 6 => Forged a
   | 7 => Replay a
   | 8 => Restart
-  | _ => Keepalive
+  | 9 => Keepalive
+  | _ => Abandon
   end.
 Definition dec_step (l : list N) : event * obs :=
   match l with
@@ -138,7 +139,8 @@ Fixpoint check_cases (ks : list case) (idx : N) : list (N * N * N) :=
    14 ticks; 15 keys promoted with packets staged;
    16 forged message under next's index; 17 under current/previous; 18 under an index not honoured;
    19 replayed message; 20 restart; 21 restart with an unconfirmed key in next;
-   22 keepalive sent under current; 23 rekey after 120 s on a keepalive-only send; 24 keepalive with no/expired key *)
+   22 keepalive sent under current; 23 rekey after 120 s on a keepalive-only send; 24 keepalive with no/expired key;
+   25 handshake attempt abandoned; 26 abandoned while a key is current *)
 Definition same_kp (o : option kp) (k : kp) : bool :=
   match o with Some x => id x =? id k | None => false end.
 
@@ -189,6 +191,7 @@ Definition classify (s : state) (e : event) : list nat :=
           end
       end
   | Replay _ => [19%nat]
+  | Abandon => match cur s with Some _ => [25%nat; 26%nat] | None => [25%nat] end
   | Restart => match next s with Some _ => [20%nat; 21%nat] | None => [20%nat] end
   | Keepalive =>
       match o_sent o with
@@ -216,13 +219,13 @@ Fixpoint stats_case (s : state) (c : case) (st : list N) : list N :=
   end.
 
 Definition stats (ks : list case) : list N :=
-  fold_left (fun st k => stats_case init k st) ks (repeat 0 25).
+  fold_left (fun st k => stats_case init k st) ks (repeat 0 27).
 
 (* ---- exhaustive enumeration on the model ------------------------------------- *)
 (* The property's event kinds; a slot name is resolved against the model state. *)
 Inductive aev :=
 | ACI | ACR | ARecvPrev | ARecvCur | ARecvNext | ARecvRetired | ASend | ATick (secs : N)
-| AInitiate | ARespondStale | AForgeNext | AForgeCur | ARestart | AKeepalive.
+| AInitiate | ARespondStale | AForgeNext | AForgeCur | ARestart | AKeepalive | AAbandon.
 
 Definition sid_of (o : option kp) : list event :=
   match o with Some k => [Recv (id k)] | None => [] end.
@@ -251,6 +254,7 @@ Definition concretize (s : state) (a : aev) : list event :=
   | AForgeCur => match cur s with Some k => [Forged (id k); Replay (id k)] | None => [] end
   | ARestart => [Restart]
   | AKeepalive => [Keepalive]
+  | AAbandon => [Initiate false; Abandon]
   end.
 
 (* run concrete events through model and specification; None = the specification
@@ -284,4 +288,4 @@ Fixpoint explore (alphabet : list aev) (depth : nat) (s : state) (t : sst) : opt
 Definition alphabet7 : list aev :=
   [ACI; ACR; ARecvPrev; ARecvCur; ARecvNext; ARecvRetired; ASend; ATick 61; ATick 121; ARestart; AKeepalive].
 Definition alphabet_full : list aev :=
-  alphabet7 ++ [ATick 4; ATick 45; AInitiate; ARespondStale; AForgeNext; AForgeCur].
+  alphabet7 ++ [ATick 4; ATick 45; AInitiate; ARespondStale; AForgeNext; AForgeCur; AAbandon].
